@@ -553,6 +553,12 @@ class QuicConnection:
             spin_bit=self._spin_bit,
             version=self._version,
         )
+        # limit data on un-validated network paths
+        if not network_path.is_validated:
+            builder.max_total_bytes = (
+                network_path.bytes_received * 3 - network_path.bytes_sent
+            )
+
         if self._close_pending:
             epoch_packet_types = []
             if not self._handshake_confirmed:
@@ -593,12 +599,6 @@ class QuicConnection:
                 and builder.max_flight_bytes < self._max_datagram_size
             ):
                 builder.max_flight_bytes = self._max_datagram_size
-
-            # limit data on un-validated network paths
-            if not network_path.is_validated:
-                builder.max_total_bytes = (
-                    network_path.bytes_received * 3 - network_path.bytes_sent
-                )
 
             try:
                 if not self._handshake_confirmed:
